@@ -339,6 +339,51 @@ pub fn generate(ctx: &Ctx, rng: &mut Rng, n_ops: u64) -> String {
             }
         }
     }
+    // a maintenance slot that travels through a dummy tour while the slot fills up again: vehicle A
+    // visits the slot, a dummy tour exists, the slot moves from A into the dummy tour, other vehicles
+    // fill the slot up to its track count, then the dummy tour hands the slot to a real vehicle -
+    // which must be refused (C02 / C10: no slot hosts more vehicles than it has tracks)
+    let maint_nodes: Vec<usize> = (0..ctx.nodes.len()).filter(|&i| ctx.nw.node(ctx.n(i)).is_maintenance()).collect();
+    if !maint_nodes.is_empty() && rng.chance(30) {
+        let m = *rng.pick(&maint_nodes);
+        let nw = &ctx.nw;
+        let ntypes = nw.vehicle_types().iter().count();
+        let vt = rng.below(ntypes as u64) as usize;
+        let mut run = |st: &mut State, s: &mut String, op: String| {
+            s.push_str(&format!("O {}\n", op));
+            s.push_str(&exec(ctx, st, &op));
+        };
+        let before: Vec<VehicleIdx> = st.sched.vehicles_iter_all().collect();
+        run(&mut st, &mut s, format!("spawn {} {}", vt, m));
+        let a = st.sched.vehicles_iter_all().find(|v| !before.contains(v));
+        // a dummy tour of the same type: a spawned and deleted vehicle
+        let p = random_path(ctx, rng, Some(vt), 1);
+        if let (Some(a), false) = (a, p.is_empty()) {
+            let before: Vec<VehicleIdx> = st.sched.vehicles_iter_all().collect();
+            run(&mut st, &mut s, format!("spawn {} {}", vt, list_tok(p)));
+            let b = st.sched.vehicles_iter_all().find(|v| !before.contains(v));
+            if let Some(b) = b {
+                run(&mut st, &mut s, format!("delete {}", veh_tok(b)));
+            }
+            let d = st.sched.dummy_iter().last();
+            if let Some(d) = d {
+                let kind = if rng.chance(50) { "override" } else { "fit" };
+                run(&mut st, &mut s, format!("{} {} {} {} {}", kind, veh_tok(a), veh_tok(d), m, m));
+                if st.sched.is_dummy(d) && tour_nodes(&st.sched, d).contains(&m) {
+                    let tracks = nw.track_count_of_maintenance_slot(ctx.n(m)) as u64;
+                    for _ in 0..tracks {
+                        run(&mut st, &mut s, format!("spawn {} {}", vt, m));
+                    }
+                    let reals: Vec<VehicleIdx> = st.sched.vehicles_iter_all().collect();
+                    if !reals.is_empty() {
+                        let r = *rng.pick(&reals);
+                        let kind = if rng.chance(50) { "override" } else { "fit" };
+                        run(&mut st, &mut s, format!("{} {} {} {} {}", kind, veh_tok(d), veh_tok(r), m, m));
+                    }
+                }
+            }
+        }
+    }
     let mut done = 0;
     let mut tries = 0;
     while done < n_ops && tries < 4 * n_ops {
